@@ -11,7 +11,7 @@ LEAN_MODULES = ["Econf.Props.C16", "Econf.Props.Tie"]
 THEOREMS = ["Econf.C16_gate", "Econf.C16_refused", "Econf.C16_reset", "Econf.C16_all_pass_history", "Econf.C16_all_pass_file", "Econf.C16_first_refused", "Econf.Struct.tie_gate_codes"]
 SHRINK = False
 RULE = ("small trees x every consulted file assigned {matching, foreign} owner and group and {regular, symbolic link} at random x every "
-        "subset of {required owner, required group, no symlinks} x read entry points (single file, layered, two-directory, history); "
+        "subset of {required owner, required group, no symlinks} (the setters called in any order, the symbolic-link rule also set and lifted again or stated as the default) x read entry points (single file, layered, two-directory, history); "
         "the result is compared with: code of the first offending consulted file and no content, or the unrestricted result; after the "
         "reset call the read must equal the unrestricted one; non-trivial = a restriction is active and a file consulted; "
         "distinct by scenario text.  Runs as root (chown).")
@@ -67,14 +67,29 @@ def make(rng, sid):
     if relative:
         s.add("CD", h(b"/"))
         s.meta["relative"] = True
+    # the setters in any order, the symbolic-link rule possibly stated more than once (forbidden and allowed again, the
+    # default stated explicitly); what is in force is what each setter was told last
+    cmds = []
     if restr["owner"]:
-        s.add("G", "owner", UID)
+        cmds.append(("G", "owner", UID))
     if restr["group"]:
-        s.add("G", "group", GID)
-    if restr["nosymlink"]:
-        s.add("G", "nosymlink", 1)
+        cmds.append(("G", "group", GID))
     if perms:
-        s.add("G", "perms", perms[0], perms[1])
+        cmds.append(("G", "perms", perms[0], perms[1]))
+    rng.shuffle(cmds)
+    link_calls = rng.choice([[1], [0, 1], [1, 1]]) if restr["nosymlink"] else rng.choice([[], [], [0], [1, 0], [0, 0]])
+    pos = 0
+    for v in link_calls:     # kept in their order, anywhere between the other setters
+        pos = rng.randint(pos, len(cmds))
+        cmds.insert(pos, ("G", "nosymlink", v))
+        pos += 1
+    if link_calls and rng.random() < 0.5:
+        # the last call about links comes after the other restrictions at least sometimes
+        last = max(i for i, c in enumerate(cmds) if c[1] == "nosymlink")
+        cmds.append(cmds.pop(last))
+    for c in cmds:
+        s.add(*c)
+    s.meta["setter_calls"] = len(cmds)
     s.add("LOGOPEN", 1)
     gen_tree.emit_read(s, p, 0, entry=entry)
     s.add("RAW", 0)
